@@ -235,6 +235,8 @@ def r15_3(ctx):
     clear += [n.id for n in g.stmt_nodes() if n.kind == "stmt" and isinstance(n.stmt, ast.Expr) and isinstance(n.stmt.value, ast.Call) and isinstance(n.stmt.value.func, ast.Attribute)
               and n.stmt.value.func.attr == "clear" and not n.stmt.value.args and norm(_inl(n.stmt.value.func.value, _sd)) == "self._buffer"]
     exitb = [n.id for n in g.stmt_nodes() if n.kind == "stmt" and any(isinstance(c, ast.Call) and norm(c.func) == "self._exit_buffer" for c in ast.walk(n.stmt))]
+    # _exit_buffer written out in place: the counter is decremented (that is what leaves the context), then _check_buffer() runs
+    exitb += [n.id for n in g.stmt_nodes() if n.kind == "stmt" and isinstance(n.stmt, ast.AugAssign) and isinstance(n.stmt.op, ast.Sub) and norm(n.stmt.target) == "self._buffer_index"]
     ok = bool(render) and bool(clear) and bool(exitb)
     if ok:
         ok = all(g.dominated_by(c, set(render)) for c in clear) and all(g.dominated_by(x, set(clear)) for x in exitb)
